@@ -940,13 +940,23 @@ Proof. intro w. unfold ctl_observed. kauto. apply ctl_call_K. Qed.
 Ltac sfr := apply Kat_Sat; kfr.
 Ltac sauto' := repeat first [ kstep | put_frame | kfr | sfr | (apply Kat_Sat; put_frame) ].
 
+Lemma do_pause_deferred_Kat msg next w : is_terminated w = false -> Kat (do_pause_deferred msg next) w.
+Proof.
+  intro Hl. unfold do_pause_deferred. kstep. destruct next as [ns|]; [destruct (pausing w) as [a'|]|].
+  - kstep; [|kauto]. kstep; [apply transition_Kat; right; exact Hl|]. kstep. kstep. kstep.
+    + apply do_pause_Kat; [apply do_ctl_K | left; reflexivity].
+    + apply Kat_ret.
+  - apply do_pause_Kat; [apply do_ctl_K | right; exact Hl].
+  - apply do_pause_Kat; [apply do_ctl_K | left; reflexivity].
+Qed.
+
 Lemma run_action_Kat id next w : is_terminated w = false -> Kat (run_action id next) w.
 Proof.
   intro Hl. unfold run_action. kstep. destruct (get_act w id) as [a|]; [|apply Kat_raise].
   destruct (a_fut a); try apply Kat_raise.
   kstep; [|kauto].
   kstep. destruct (a_kind a).
-  - apply do_pause_Kat; [apply do_ctl_K | right; exact Hl].
+  - apply do_pause_deferred_Kat. exact Hl.
   - kstep; [|kauto]. destruct next as [[]|]; (kstep; [apply transition_Kat; right; exact Hl | kauto]).
 Qed.
 
